@@ -300,6 +300,26 @@ def numeric_kernel_oracles(rng, res, nmax=200, quick=True):
                 res['violations'].append(dict(key='fmin:shift', what='fourier_minimum not invariant under cyclic shift, N=%d: %.12g vs %.12g' % (n, v, v2)))
             if abs(v - true_min) > 1e-8:
                 res['violations'].append(dict(key='fmin:value', what='fourier_minimum %.12g differs from the minimum of the interpolant %.12g, N=%d' % (v, true_min, n)))
+    # spectral minimum on ROUGH multi-well data: whenever it returns (a valid bracket was found), the value does not exceed any sample
+    # and is shift invariant up to the choice among wells of equal depth
+    nrough = 60 if quick else 400
+    returned = 0
+    for t in range(nrough):
+        n = int(2 * rng.integers(6, 40) + 1)
+        xk = np.arange(n) * 2 * np.pi / n
+        y = np.zeros(n)
+        for m in range(1, max(2, n // 3)):
+            y += rng.standard_normal() * np.cos(m * xk + rnd(rng, 0, 6.28)) / np.sqrt(m)
+        try:
+            v = fourier_minimum(y)
+        except Exception:
+            continue
+        returned += 1
+        checked += 1
+        if v > np.min(y) + 1e-10 * max(1.0, float(np.max(np.abs(y)))):
+            res['violations'].append(dict(key='fmin:samples', what='fourier_minimum (%.12g) exceeds the smallest sample (%.12g) on rough data, N=%d' % (v, np.min(y), n),
+                                          data=[float(x) for x in y]))
+    res['fmin_rough_cases'] = dict(tried=nrough, returned=returned)
     res['predictions_checked'] += checked
 
 
